@@ -152,6 +152,11 @@ def group_members(model, g, _stack=()):
 
 # ------------------------------------------------------------------------------------- rendering
 
+def alias_directive(model, u):
+    """aliases of this unit are written as a separate '@alias' directive (layout styles 4 and 5, every unit with an even index)"""
+    return bool(u["aliases"]) and model["layout"]["style"] >= 4 and [x["name"] for x in model["units"]].index(u["name"]) % 2 == 0
+
+
 def unit_line(model, u, style):
     sp = [" * ", "*", " * "][style % 3]
     terms = []
@@ -164,9 +169,10 @@ def unit_line(model, u, style):
         terms.append(name if e == 1 else f"{name} ** {e}" if style % 2 == 0 else f"{name}**{e}")
     rhs = fstr(u["factor"], style) + sp + sp.join(terms) if not (u["factor"] == 1 and style % 2) else sp.join(terms)
     parts = [u["name"], rhs]
-    if u["symbol"] or u["aliases"]:
+    aliases = [] if alias_directive(model, u) else u["aliases"]
+    if u["symbol"] or aliases:
         parts.append(u["symbol"] or "_")
-    parts += u["aliases"]
+    parts += aliases
     return " = ".join(parts) if style % 3 != 1 else "  =  ".join(parts)
 
 
@@ -222,6 +228,8 @@ def render(model, *, permute=True, split_import=False):
         for new, old in s["rules"]:
             blocks.append(f"    {new}: {old}" if old else f"    {new}")
         blocks.append("@end")
+    # '@alias' directives come after every unit they name (also after the units defined inside group blocks)
+    tail = [f"@alias {u['name']} = " + " = ".join(u["aliases"]) for u in model["units"] if alias_directive(model, u)]
     if split_import:
-        return lines + ["@import extra_defs.txt"] + blocks, {"extra_defs.txt": body}
-    return lines + body + blocks, {}
+        return lines + ["@import extra_defs.txt"] + blocks + tail, {"extra_defs.txt": body}
+    return lines + body + blocks + tail, {}
